@@ -62,6 +62,8 @@ LOOPS (second half of this file).
   `-len(L) ≤ i < 0`, `IndexError` otherwise. `len(L)` is `(L.length : Int)`.
 * A variable that is assigned only inside a loop / a branch and read later (`xproj` of `proj_polyligne`) has type
   `Option τ` (`none` = not yet bound); reading it is `getBound`: `UnboundLocalError` on `none`.
+* `b * k` with `b` a bool and `k` an int: `True` is 1, `False` is 0. `a ** e` on two ints (`ipow`): `a ^ e` when `e ≥ 0`; when `e < 0`
+  Python returns a float, which cannot be typed: the error value `Err.type` (to be excluded by the tie's hypotheses).
 * `x in L` / `x not in L` on a list of ints / tuples of ints: `List.elem` with decidable equality (`contains`).
   `L.remove(v)`: `List.erase` (first occurrence), `ValueError` if absent.
 -/
@@ -364,6 +366,10 @@ def removeFirst {β : Type} (eqv : β → β → Bool) : List β → β → M (L
 
 /-- int `a >> k` (floor shift), `ValueError` on a negative count -/
 @[inline] def ishr (a k : Int) : M Int := if k < 0 then .error .value else .ok (Int.shiftRight a k.toNat)
+
+/-- int `a ** e`: the int `a ^ e` for `e ≥ 0`. For `e < 0` Python returns a FLOAT (`2 ** -1 == 0.5`), which the translator cannot
+type: the result is then the error value `Err.type` (NOT Python's behaviour — a tie theorem has to exclude that case). -/
+@[inline] def ipow (a e : Int) : M Int := if e < 0 then .error .type else .ok (a ^ e.toNat)
 
 /-- int `abs` -/
 @[inline] def iabs (a : Int) : Int := if a < 0 then -a else a
